@@ -151,6 +151,17 @@ def py_pnames(n):
     raise ValueError(k)
 
 
+def py_is_atomic(n):
+    """PulseTemplate._is_atomic: atoms, AtomicMultiChannelPT, ArithmeticAtomicPT; transparent through ParallelChannelPT,
+    ArithmeticPT, TimeReversalPT, MappingPT"""
+    k = n['k']
+    if k in ('table', 'point', 'func', 'const', 'amc', 'aat'):
+        return True
+    if k in ('par', 'ari', 'rev', 'map'):
+        return py_is_atomic(n['inner'])
+    return False
+
+
 def par_ow(n):
     """overwritten channels of a 'par' node as [(channel, expr)] (old corpus format: 'ow': [expr], 'och': channel)"""
     if 'och' in n:
@@ -187,6 +198,7 @@ class Gen:
         self.max_depth = max_depth
         self.only = None        # restrict the composite node kinds (small-scope enumeration)
         self.visible = []       # ids of constraints generated against a non-empty list of environments
+        self.hot = set()        # names rebound by a mapping / used as loop index although they exist outside: preferred
 
     def name(self, prefix):
         self.fresh += 1
@@ -204,6 +216,9 @@ class Gen:
         if not names:
             return C(self.small())
         x = r.choice(names)
+        hot = [y for y in names if y in self.hot]
+        if hot and r.random() < 0.35:
+            x = r.choice(hot)
         shape = r.random()
         if shape < 0.35 or (want_var and shape < 0.4):
             return V(x)
@@ -323,10 +338,24 @@ class Gen:
         names = sorted(avail)
         m = {}
         for _ in range(r.choice([0, 1, 1, 2, 3])):
-            key = self.name('q') if (r.random() < 0.8 or not names) else r.choice(names)   # fresh name or shadowing
+            key = self.name('q') if (r.random() < 0.75 or not names) else r.choice(names)   # fresh name or shadowing
             if key == must:
                 continue
-            m[key] = self.expr(names)
+            if key in names and r.random() < 0.5:
+                # self-referential rebinding x -> f(x) that reads only x / x and one other name
+                other = r.choice(names)
+                m[key] = r.choice([['*', V(key), C(2)], ['+', V(key), C(r.choice([1, 2]))], ['-', V(key), C(1)],
+                                   ['*', V(key), V(key)], ['*', V(key), C(-1)],
+                                   ['+', V(key), V(other)] if other != key else ['+', V(key), C(3)]])
+            else:
+                m[key] = self.expr(names)
+            if key in names:
+                self.hot.add(key)
+        if len(names) >= 2 and r.random() < 0.06:           # swap
+            x, y = r.sample(names, 2)
+            if must not in (x, y):
+                m[x], m[y] = V(y), V(x)
+                self.hot |= {x, y}
         avail2 = set(avail) | set(m)
         envs2 = []
         for e in envs:
@@ -354,7 +383,10 @@ class Gen:
                 'ms': self.windows(sorted(avail))}
 
     def arith(self, avail, inner, chs):
-        """ArithmeticPT(inner op scalar) / (scalar op inner); scalar = one expression or a mapping on some channels"""
+        """ArithmeticPT(inner op scalar) / (scalar op inner); scalar = one expression or a mapping on some channels;
+        op '/' only as inner / scalar with a scalar that reads a parameter (a constant 0 divisor raises
+        ZeroDivisionError, a parameter that is 0 gives inf: not a matter of parameters); 'td': every scalar is
+        multiplied by the time variable t (time dependent scalar; t is not a parameter)"""
         r = self.rng
         names = sorted(avail)
         n = {'k': 'ari', 'inner': inner, 'op': r.choice('+-*'), 'side': r.choice('lr'), 'sa': [], 'sc': []}
@@ -363,6 +395,11 @@ class Gen:
         else:
             sub = [c for c in chs if r.random() < 0.7]
             n['sc'] = [[c, self.expr(names)] for c in sub]
+        scalars = n['sa'] + [e for _, e in n['sc']]
+        if r.random() < 0.25 and scalars and all(evars(e) for e in scalars):
+            n['op'], n['side'] = '/', 'r'
+        elif py_is_atomic(inner) and r.random() < 0.6:
+            n['td'] = True          # the real constructor accepts a time dependent scalar only next to an atomic template
         return n
 
     def tree(self, depth, avail, envs, chs, must=None):
@@ -408,11 +445,16 @@ class Gen:
             n = {'k': 'rep', 'body': self.tree(depth + 1, avail, envs2, chs), 'count': count,
                  'cs': self.constraints(names, envs), 'ms': self.windows(names)}
         elif k == 'for':
-            idx = self.name('i') if (r.random() < 0.85 or not names) else r.choice(names)
+            idx = self.name('i') if (r.random() < 0.8 or not names) else r.choice(names)
             if idx == must:
                 idx = self.name('i')
             a = self.int_expr(names, envs, -2, 3)
             b = self.int_expr(names, envs, -2, 4)
+            if idx in names:
+                self.hot.add(idx)
+                if envs and all(e[idx].denominator == 1 and -2 <= e[idx] <= 3 for e in envs) and r.random() < 0.6:
+                    # the index name is also read by the loop's own range (evaluated outside the loop)
+                    a, b = r.choice([(V(idx), ['+', V(idx), C(r.randint(0, 3))]), (C(0), V(idx)), (V(idx), C(3))])
             st = r.choice([C(1), C(1), C(2), C(-1), C(-2), self.int_expr(names, envs, -2, 2)])
             ok = True
             envs2 = []
@@ -564,6 +606,9 @@ def gen_tree(rng, max_depth):
 
 def mk_case(tree, ref, family, rng, drop=(), tag='', zeros=(), rmn=None):
     extras = {('x%d' % i): str(F(rng.randint(-3, 3))) for i in range(rng.choice([1, 2]))}
+    for x in d_internal_names(tree):        # undeclared names that coincide with internal ones (t, m, A, indices, keys)
+        if rng.random() < 0.5:
+            extras[x] = str(F(rng.randint(-3, 5)))
     c = {'kind': family, 'tree': strip_ids(tree), 'ref': {k: str(v) for k, v in sorted(ref.items())},
          'drop': sorted(drop), 'rm': rng.randrange(64), 'extra': extras, 'tag': tag}
     if family == 'zero':
@@ -663,9 +708,334 @@ def enum_small():
     return out
 
 
+# ---------------------------------------------------------------------------------------------------------------------
+# directed stream (deterministic, no RNG): name-coincidence classes
+#   D1 self-referential / shadowing mappings  x -> f(x)  (2*x, x+2, x-1, x*x, x+y, -x, y, swap {x: y, y: x}) above every
+#      constrainable node kind, in every position (top, below a sequence / repetition, between a loop and its body with
+#      x = the loop index, on the eager path inside an AtomicMultiChannelPT, nested in a second mapping of the same name,
+#      above a loop whose range reads x, above a loop whose index is x), with one constraint on x that is
+#        - placed on the mapping node itself (sees the *outer* x)   or   on a node below it (sees the *mapped* x),
+#        - chosen so that it separates the two scopes: true where it belongs and false in the other scope (must be
+#          accepted) / false where it belongs and true in the other scope (must be rejected);
+#   D2 loop index = a name of the loop's own range / of the enclosing loop's bound; constraint on the loop vs in the body;
+#   D3 extra (undeclared) names that coincide with internal names: 't' (time variable of FunctionPT), loop indices,
+#      inner mapping keys, the measurement name, channel names -- every directed case passes *all* of them as the
+#      second assignment; (b) then demands the same outcome and an equal program.
+
+def _tagged(n, tag):
+    n['_tags'] = n.get('_tags', []) + [tag]
+    return n
+
+
+def reach(n, env, out):
+    """generator-side reference semantics (all values present): environments seen by every reached tagged node"""
+    for tg in n.get('_tags', []):
+        out.setdefault(tg, []).append(dict(env))
+    k = n['k']
+    if k in ('amc', 'seq'):
+        for q in n['subs']:
+            reach(q, env, out)
+    elif k in ('par', 'ari', 'rev'):
+        reach(n['inner'], env, out)
+    elif k == 'aat':
+        reach(n['lhs'], env, out)
+        reach(n['rhs'], env, out)
+    elif k == 'rep':
+        if ev(n['count'], env) > 0:
+            reach(n['body'], env, out)
+    elif k == 'for':
+        for v in range(int(ev(n['a'], env)), int(ev(n['b'], env)), int(ev(n['st'], env))):
+            e2 = dict(env)
+            e2[n['idx']] = F(v)
+            reach(n['body'], e2, out)
+    elif k == 'map':
+        e2 = dict(env)
+        for key, ex in n['m'].items():
+            e2[key] = ev(ex, env)
+        reach(n['inner'], e2, out)
+    return out
+
+
+def strip_tags(t):
+    t = copy.deepcopy(t)
+    for n in nodes(t):
+        n.pop('_tags', None)
+    return t
+
+
+def find_tag(t, tag):
+    for n in nodes(t):
+        if tag in n.get('_tags', []):
+            return n
+    return None
+
+
+def separating(x, A, B, truth):
+    """constraints on x: truth=True -> true on every value of A and false on some value of B;
+    truth=False -> false on some value of A and true on every value of B (A: where the node lives, B: the other scope)"""
+    if not A or not B:
+        return []
+    if not truth:
+        A, B = B, A
+    out = []            # now: true on all of A, false on some of B
+    if min(B) < min(A):
+        out.append({'op': '>=', 'l': V(x), 'r': C(min(A))})
+        out.append({'op': '>', 'l': V(x), 'r': C(min(A) - F(1, 2))})
+    if max(B) > max(A):
+        out.append({'op': '<=', 'l': V(x), 'r': C(max(A))})
+        out.append({'op': '<', 'l': ['-', V(x), C(1)], 'r': C(max(A))})
+    if len(set(A)) == 1 and set(B) != set(A):
+        out.append({'op': '==', 'l': V(x), 'r': C(A[0])})
+    return out
+
+
+def _const(e, ch='A', dur=None):
+    return {'k': 'const', 'ch': [ch], 'reads': [e], 'dur': dur or C(2), 'cs': [], 'ms': []}
+
+
+D_TARGETS = ['table', 'point', 'func', 'amc', 'seq', 'rep', 'for', 'map0', 'mapz']
+D_ATOMIC_TARGETS = ['table', 'point', 'func', 'map0', 'mapz', 'aat']
+
+
+def d_target(kind, x, ch='A'):
+    """a node that reads x and accepts constraints (tag 'T'); inside an AMC: atomic, duration 2, one channel"""
+    if kind == 'table':
+        n = {'k': 'table', 'ch': [ch], 'reads': [V(x), C(1)], 'dur': C(2), 'cs': [], 'ms': []}
+    elif kind == 'point':
+        n = {'k': 'point', 'ch': [ch], 'reads': [C(1), V(x)], 'dur': C(2), 'cs': [], 'ms': [[C(0), C(1)]]}
+    elif kind == 'func':
+        n = {'k': 'func', 'ch': [ch], 'reads': [['+', V(x), C(1)]], 'dur': C(2), 'cs': [], 'ms': []}
+    elif kind == 'amc':
+        n = {'k': 'amc', 'subs': [_const(V(x), ch)], 'cs': [], 'ms': [[C(1), C(1)]]}
+    elif kind == 'seq':
+        n = {'k': 'seq', 'subs': [_const(V(x), ch)], 'cs': [], 'ms': [[C(0), ['*', V(x), V(x)]]]}
+    elif kind == 'rep':
+        n = {'k': 'rep', 'body': _const(V(x), ch), 'count': C(2), 'cs': [], 'ms': []}
+    elif kind == 'for':
+        n = {'k': 'for', 'body': _const(['+', V(x), V('j9')], ch), 'idx': 'j9', 'a': C(0), 'b': C(2), 'st': C(1),
+             'cs': [], 'ms': []}
+    elif kind == 'map0':            # partial mapping (completed with the identity), constraints of its own
+        n = {'k': 'map', 'inner': {'k': 'table', 'ch': [ch], 'reads': [V(x), C(0)], 'dur': C(2), 'cs': [], 'ms': []},
+             'm': {}, 'cs': []}
+    elif kind == 'mapz':            # a mapping of another name that reads x
+        n = {'k': 'map', 'inner': {'k': 'table', 'ch': [ch], 'reads': [V('z9'), V(x)], 'dur': C(2), 'cs': [], 'ms': []},
+             'm': {'z9': ['+', V(x), C(1)]}, 'cs': []}
+    elif kind == 'aat':
+        n = {'k': 'aat', 'lhs': {'k': 'table', 'ch': [ch], 'reads': [V(x), C(1)], 'dur': C(2), 'cs': [], 'ms': []},
+             'rhs': _const(C(1), ch), 'op': '+', 'ms': []}
+        _tagged(n['lhs'], 'T')
+        return n
+    else:
+        raise ValueError(kind)
+    return _tagged(n, 'T')
+
+
+def d_fkinds(x, y):
+    return [('2x', {x: ['*', V(x), C(2)]}), ('x+2', {x: ['+', V(x), C(2)]}), ('x-1', {x: ['-', V(x), C(1)]}),
+            ('xx', {x: ['*', V(x), V(x)]}), ('x+y', {x: ['+', V(x), V(y)]}), ('negx', {x: ['*', V(x), C(-1)]}),
+            ('y', {x: V(y)}), ('swap', {x: V(y), y: V(x)})]
+
+
+D_REF = {'p0': F(3), 'p1': F(3), 'p2': F(2), 'p3': F(1)}
+D_CONTEXTS = ['top', 'seq', 'rep', 'loopidx', 'amc', 'nested', 'looprange', 'idxshadow']
+
+
+def d_context(cname, m, tkind):
+    """(tree, x): the mapping node M (tag 'M') with parameter mapping m (over x, y) in position cname above the target"""
+    x, y = ('i1', 'p2') if cname == 'loopidx' else ('p0', 'p2')
+    mm = dict(m(x, y))
+    keep_y = [_const(V(y), 'A')] if y in mm else []        # the swap also maps y: keep y needed below the mapping
+    if cname == 'amc':
+        t = d_target(tkind, x, 'A')
+        M = _tagged({'k': 'map', 'inner': t, 'm': mm, 'cs': []}, 'M')
+        if keep_y:
+            M['inner'] = {'k': 'aat', 'lhs': t, 'rhs': keep_y[0], 'op': '+', 'ms': []}
+        return {'k': 'amc', 'subs': [M, _const(C(1), 'B')], 'cs': [], 'ms': []}, x
+    t = d_target(tkind, x)
+    inner = {'k': 'seq', 'subs': [t] + keep_y, 'cs': [], 'ms': []} if keep_y else t
+    if cname == 'top':
+        return _tagged({'k': 'map', 'inner': inner, 'm': mm, 'cs': []}, 'M'), x
+    if cname == 'seq':
+        M = _tagged({'k': 'map', 'inner': {'k': 'seq', 'subs': [_const(C(1)), inner], 'cs': [], 'ms': []}, 'm': mm, 'cs': []}, 'M')
+        return {'k': 'seq', 'subs': [M, _const(V(x))], 'cs': [], 'ms': []}, x
+    if cname == 'rep':
+        M = _tagged({'k': 'map', 'inner': inner, 'm': mm, 'cs': []}, 'M')
+        return {'k': 'rep', 'body': M, 'count': C(2), 'cs': [], 'ms': []}, x
+    if cname == 'loopidx':          # the loop index is rebound between the loop and its body
+        M = _tagged({'k': 'map', 'inner': inner, 'm': mm, 'cs': []}, 'M')
+        return {'k': 'for', 'body': M, 'idx': x, 'a': C(0), 'b': V('p1'), 'st': C(1), 'cs': [], 'ms': []}, x
+    if cname == 'nested':           # a second mapping of the same name above (merged iff M has no constraints)
+        M = _tagged({'k': 'map', 'inner': inner, 'm': mm, 'cs': []}, 'M')
+        return {'k': 'map', 'inner': M, 'm': {x: ['+', V(x), C(1)]}, 'cs': []}, x
+    if cname == 'looprange':        # the mapped name is the bound of a loop below
+        body = {'k': 'seq', 'subs': [inner, _const(V('j8'))], 'cs': [], 'ms': []}
+        loop = {'k': 'for', 'body': body, 'idx': 'j8', 'a': C(0), 'b': V(x), 'st': C(3), 'cs': [], 'ms': []}
+        return _tagged({'k': 'map', 'inner': loop, 'm': mm, 'cs': []}, 'M'), x
+    if cname == 'idxshadow':        # the mapped name is the bound *and* the index of a loop below
+        loop = {'k': 'for', 'body': inner, 'idx': x, 'a': C(0), 'b': V(x), 'st': C(2), 'cs': [], 'ms': []}
+        return _tagged({'k': 'map', 'inner': loop, 'm': mm, 'cs': []}, 'M'), x
+    raise ValueError(cname)
+
+
+def d_internal_names(tree):
+    """undeclared names that coincide with internal ones: time variable, measurement / channel names, loop indices,
+    inner mapping keys"""
+    s = {'t', 'm', 'A'}
+    for n in nodes(tree):
+        if n['k'] == 'for':
+            s.add(n['idx'])
+        if n['k'] == 'map':
+            s |= set(n['m'])
+    return sorted(s - py_pnames(tree))
+
+
+def d_case(tree, ref, tag, kind='exact', rm=0, drop=(), extra_vals=(5, -3, 2, 7)):
+    tree = strip_tags(tree)
+    extra = {x: str(extra_vals[j % len(extra_vals)]) for j, x in enumerate(d_internal_names(tree))}
+    return {'kind': kind, 'tree': tree, 'ref': {k: str(v) for k, v in sorted(ref.items())}, 'drop': sorted(drop),
+            'rm': rm, 'extra': extra, 'tag': tag}
+
+
+def _values_at(tree, tag, x, ref, inner=False):
+    out = reach(tree, dict(ref), {})
+    envs = out.get(tag, [])
+    return [e[x] for e in envs if x in e]
+
+
+def directed_mapping_cases(full):
+    """D1.  quick: for every context all mappings (targets rotating) and all targets (mappings rotating); thorough:
+    the full product"""
+    cases = []
+    for ci, cname in enumerate(D_CONTEXTS):
+        tks = D_ATOMIC_TARGETS if cname == 'amc' else D_TARGETS
+        nf = len(d_fkinds('x', 'y'))
+        if full:
+            pairs = [(fi, ti) for fi in range(nf) for ti in range(len(tks))]
+        else:
+            pairs = [(fi, (fi + ci) % len(tks)) for fi in range(nf)] + [((ti + ci) % nf, ti) for ti in range(len(tks))]
+            pairs = list(dict.fromkeys(pairs))
+        for fi, ti in pairs:
+            fname = d_fkinds('x', 'y')[fi][0]
+            m = lambda x, y, fi=fi: d_fkinds(x, y)[fi][1]
+            ident = lambda x, y, fi=fi: {k: V(k) for k in d_fkinds(x, y)[fi][1]}
+            tree, x = d_context(cname, m, tks[ti])
+            alt, _ = d_context(cname, ident, tks[ti])           # the "other scope" below M: as if M were the identity
+            if not (sympy_ok(strip_tags(tree)) and constructible(strip_tags(tree))):
+                continue
+            # M tagged nodes see the outer scope; the node directly below sees the mapped one
+            M = find_tag(tree, 'M')
+            _tagged(M['inner'], 'MI')
+            placements = [('M', _values_at(tree, 'M', x, D_REF), _values_at(tree, 'MI', x, D_REF)),
+                          ('T', _values_at(tree, 'T', x, D_REF), _values_at(alt, 'T', x, D_REF))]
+            for where, A, B in placements:
+                for truth in (True, False):
+                    cands = separating(x, A, B, truth)
+                    if not cands:
+                        continue
+                    # rotate over the shapes of the constraint, deterministic
+                    c = cands[(fi + ti + ci + (0 if truth else 1)) % len(cands)]
+                    t2 = copy.deepcopy(tree)
+                    node = find_tag(t2, where)
+                    if node['k'] == 'aat' or 'cs' not in node:
+                        continue
+                    node['cs'] = [copy.deepcopy(c)]
+                    tag = 'D1:%s:%s:%s:on%s:%s' % (cname, fname, tks[ti], where, 'accept' if truth else 'reject')
+                    if sympy_ok(strip_tags(t2)):
+                        cases.append(d_case(t2, D_REF, tag))
+    return cases
+
+
+def directed_loop_cases():
+    """D2: the loop index coincides with a name of the loop's own range / of the enclosing loop / of a constraint or
+    measurement window of the loop node (evaluated outside the loop)"""
+    cases = []
+    x, nn = 'p0', 'p1'
+    ref = {'p0': F(1), 'p1': F(3), 'p2': F(2)}
+    for tk in D_TARGETS:
+        # resume: for x in range(x, n)
+        t = d_target(tk, x)
+        loop = _tagged({'k': 'for', 'body': t, 'idx': x, 'a': V(x), 'b': V(nn), 'st': C(1), 'cs': [], 'ms': []}, 'L')
+        # triangular: for n in range(0, n + 1): for i in range(0, n): body(i)
+        t3 = d_target(tk, 'i1')
+        tri = _tagged({'k': 'for', 'idx': nn, 'a': C(0), 'b': ['+', V(nn), C(1)], 'st': C(1), 'cs': [], 'ms': [],
+                       'body': {'k': 'for', 'body': t3, 'idx': 'i1', 'a': C(0), 'b': V(nn), 'st': C(1), 'cs': [], 'ms': []}},
+                      'L')
+        _tagged(tri['body'], 'L2')
+        # index named like a name that only the loop's own window / constraint reads
+        t4 = d_target(tk, x)
+        win = _tagged({'k': 'for', 'body': t4, 'idx': x, 'a': C(0), 'b': C(2), 'st': C(1), 'cs': [],
+                       'ms': [[C(0), ['*', V(x), V(x)]]]}, 'L')
+        for name, tree, xs in (('resume', loop, x), ('triangular', tri, nn), ('window', win, x)):
+            cases.append(d_case(tree, ref, 'D2:%s:%s:plain' % (name, tk)))
+            cases.append(d_case(tree, ref, 'D2:%s:%s:removed' % (name, tk), kind='removed', rm=len(cases)))
+            wrap = {'k': 'map', 'inner': copy.deepcopy(tree), 'm': {'p2': ['*', V('p2'), C(2)]}, 'cs': []}
+            if 'p2' in py_pnames(tree):
+                cases.append(d_case(wrap, ref, 'D2:%s:%s:mapped' % (name, tk)))
+            tgt = 'T' if name != 'triangular' else 'L2'
+            A_L, A_T = _values_at(tree, 'L', xs, ref), _values_at(tree, tgt, xs, ref)
+            for where, A, B in (('L', A_L, A_T), (tgt, A_T, A_L)):
+                for truth in (True, False):
+                    cands = separating(xs, A, B, truth)
+                    if not cands:
+                        continue
+                    t2 = copy.deepcopy(tree)
+                    node = find_tag(t2, where)
+                    if 'cs' not in node or node['k'] == 'const':
+                        continue
+                    node['cs'] = [copy.deepcopy(cands[len(cases) % len(cands)])]
+                    if sympy_ok(strip_tags(t2)):
+                        cases.append(d_case(t2, ref, 'D2:%s:%s:on%s:%s' % (name, tk, where, 'accept' if truth else 'reject')))
+    return cases
+
+
+def directed_extra_cases():
+    """D3: FunctionPT (time variable t) and the other node kinds in every position, extra names t / m / A / loop
+    indices / mapping keys supplied in the second assignment"""
+    cases = []
+    ref = {'p0': F(2), 'p1': F(3), 'p2': F(1)}
+    f = lambda: {'k': 'func', 'ch': ['A'], 'reads': [['*', V('p0'), V('p2')]], 'dur': C(2),
+                 'cs': [{'op': '<', 'l': V('p0'), 'r': C(3)}], 'ms': [[C(0), C(1)]]}
+    fq = lambda: {'k': 'func', 'ch': ['A'], 'reads': [['+', V('q1'), V('i1')]], 'dur': V('p1'), 'cs': [], 'ms': []}
+    tb = lambda: {'k': 'table', 'ch': ['A'], 'reads': [V('t'), C(1)], 'dur': C(2), 'cs': [], 'ms': []}
+    fq2 = lambda: {'k': 'func', 'ch': ['A'], 'reads': [['+', V('p0'), V('i1')]], 'dur': C(2), 'cs': [], 'ms': []}
+    trees = [
+        ('bare', f()),
+        ('map', {'k': 'map', 'inner': f(), 'm': {'p0': ['+', V('p0'), C(0)]}, 'cs': []}),
+        ('loop_map', {'k': 'for', 'idx': 'i1', 'a': C(0), 'b': V('p1'), 'st': C(1), 'cs': [], 'ms': [],
+                      'body': {'k': 'map', 'inner': fq(), 'm': {'q1': ['+', V('p0'), V('i1')]}, 'cs': []}}),
+        ('seq', {'k': 'seq', 'subs': [_const(V('p1')), f()], 'cs': [], 'ms': []}),
+        ('amc', {'k': 'amc', 'subs': [f(), _const(V('p1'), 'B')], 'cs': [], 'ms': []}),
+        ('ari', {'k': 'ari', 'inner': f(), 'op': '+', 'side': 'r', 'sa': [V('p1')], 'sc': []}),
+        ('ari_td', {'k': 'ari', 'inner': f(), 'op': '*', 'side': 'l', 'sa': [V('p1')], 'sc': [], 'td': True}),
+        ('ari_td_ch', {'k': 'ari', 'inner': f(), 'op': '+', 'side': 'r', 'sa': [], 'sc': [['A', ['+', V('p1'), C(1)]]], 'td': True}),
+        ('ari_div', {'k': 'ari', 'inner': f(), 'op': '/', 'side': 'r', 'sa': [V('p1')], 'sc': []}),
+        ('ari_div_loop_t', {'k': 'for', 'idx': 'i1', 'a': C(1), 'b': V('p1'), 'st': C(1), 'cs': [], 'ms': [],
+                            'body': {'k': 'ari', 'inner': fq2(), 'op': '/', 'side': 'r', 'sa': [], 'sc': [['A', V('i1')]]}}),
+        ('par', {'k': 'par', 'inner': f(), 'ow': [['B', V('p1')]]}),
+        ('rep', {'k': 'rep', 'body': f(), 'count': V('p1'), 'cs': [], 'ms': []}),
+        ('rev', {'k': 'rev', 'inner': f()}),
+        ('aat', {'k': 'aat', 'lhs': f(), 'rhs': _const(V('p1')), 'op': '+', 'ms': []}),
+        ('tsw', dict({'k': 'seq', 'subs': [f(), f()], 'cs': [], 'ms': []}, tsw=True)),
+        # a sibling declares a parameter called t: t is supplied, the function template must still ignore it
+        ('sibling_t', {'k': 'seq', 'subs': [tb(), f()], 'cs': [], 'ms': []}),
+        ('map_to_t', {'k': 'seq', 'subs': [{'k': 'map', 'inner': tb(), 'm': {'t': V('p1')}, 'cs': []}, f()], 'cs': [], 'ms': []}),
+    ]
+    for name, tree in trees:
+        for j, vals in enumerate([(5, -3, 2, 7), (0, 1, -1, 2)]):
+            cases.append(d_case(tree, ref, 'D3:%s:%d' % (name, j), extra_vals=vals))
+        cases.append(d_case(tree, ref, 'D3:%s:removed' % name, kind='removed', rm=len(cases)))
+    return cases
+
+
+def directed_cases(tier):
+    return directed_mapping_cases(tier == 'thorough') + directed_loop_cases() + directed_extra_cases()
+
+
 def gen_cases(rng, tier, ctx, every_constraint=False):
     ntrees = {'quick': 150, 'thorough': 1200}[tier]
     cases = enum_small() if tier == 'thorough' else []
+    if not every_constraint:
+        cases += directed_cases(tier)
     for t in range(ntrees):
         g, tree, ref = gen_tree(rng, rng.choice([2, 3, 3, 4]))
         cases.append(mk_case(tree, ref, 'exact', rng))
@@ -739,7 +1109,8 @@ def _build_pt(n, tsw):
     if k == 'par':
         return ParallelChannelPT(build_pt_(n['inner']), {c: estr(e) for c, e in par_ow(n)})
     if k == 'ari':
-        scalar = estr(n['sa'][0]) if n['sa'] else {c: estr(e) for c, e in n['sc']}
+        sstr = (lambda e: '%s*t' % estr(e)) if n.get('td') else estr
+        scalar = sstr(n['sa'][0]) if n['sa'] else {c: sstr(e) for c, e in n['sc']}
         inner = build_pt_(n['inner'])
         return (ArithmeticPulseTemplate(scalar, n['op'], inner) if n['side'] == 'l'
                 else ArithmeticPulseTemplate(inner, n['op'], scalar))
@@ -765,7 +1136,33 @@ def py_value(q):
     return int(q) if q.denominator == 1 else float(q)
 
 
-def _create(pt, values, drop, tsw=()):
+def fingerprint(prog):
+    """what a program plays, independent of its representation: loop structure, repetition counts, per leaf the
+    duration and 5 samples per channel, and the measurement windows"""
+    import numpy as np
+
+    def rec(l):
+        if l.is_leaf():
+            wf = l.waveform
+            d = float(wf.duration)
+            ts = np.linspace(0., d, 5)
+            return ['leaf', int(l.repetition_count), d,
+                    [[str(ch)] + [float(v) for v in wf.get_sampled(ch, ts)] for ch in sorted(wf.defined_channels, key=str)]]
+        return ['loop', int(l.repetition_count), [rec(c) for c in l]]
+    ms = prog.get_measurement_windows()
+    return [rec(prog), [[str(k)] + [float(v) for v in ms[k][0]] + ['/'] + [float(v) for v in ms[k][1]] for k in sorted(ms)]]
+
+
+def fp_equal(a, b):
+    import math
+    if isinstance(a, list) and isinstance(b, list):
+        return len(a) == len(b) and all(fp_equal(x, y) for x, y in zip(a, b))
+    if isinstance(a, float) and isinstance(b, float):
+        return (math.isnan(a) and math.isnan(b)) or a == b or math.isclose(a, b, rel_tol=1e-9, abs_tol=1e-9)
+    return type(a) == type(b) and a == b
+
+
+def _create(pt, values, drop, tsw=(), keep=None):
     from qupulse.pulses.parameters import ParameterConstraintViolation, ParameterNotProvidedException
     from qupulse.expressions import ExpressionVariableMissingException
     kw = {}
@@ -776,6 +1173,13 @@ def _create(pt, values, drop, tsw=()):
     try:
         with vlib.time_limit(20):
             prog = pt.create_program(parameters={k: py_value(v) for k, v in values.items()}, **kw)
+            if prog is not None and keep is not None:
+                try:
+                    keep.append(fingerprint(prog))
+                except vlib.Timeout:
+                    raise
+                except Exception as e:          # a program that cannot be sampled: compared by its text
+                    keep.append(['unsampled', type(e).__name__, str(prog)])
         return 'none' if prog is None else 'program'
     except vlib.Timeout:
         return 'hang'
@@ -811,11 +1215,14 @@ def run_impl(case):
         values2 = dict(values)
         values2.update(case['extra'])
         drop = drop_list(case)
-        out = _create(pt, values, drop, tsw)
-        out2 = _create(pt, values2, drop, tsw)
+        fp1, fp2 = [], []
+        out = _create(pt, values, drop, tsw, fp1)
+        out2 = _create(pt, values2, drop, tsw, fp2)
         if 'hang' in (out, out2):
             return {'hang': True}
-        return {'names': names, 'values': values, 'out': out, 'values2': values2, 'out2': out2}
+        # (b): two programs are "the same result" iff they play the same (only meaningful when both exist)
+        same = fp_equal(fp1, fp2) if (out == 'program' and out2 == 'program') else True
+        return {'names': names, 'values': values, 'out': out, 'values2': values2, 'out2': out2, 'same': same}
 
 
 # ---------------------------------------------------------------------------------------------------------------------
@@ -889,14 +1296,22 @@ def g_out(o):
 
 
 def to_coq(case, obs):
+    term = _to_coq(case, obs)
+    if _candidate(obs):
+        _PENDING[vlib.canonical_hash([case, obs])] = term
+    return term
+
+
+def _to_coq(case, obs):
     if 'crash' in obs or 'hang' in obs:
         return 'CCrash'
     nm = Names()
     p = g_pt(case['tree'], nm)
     gv = lambda vals: glist(lambda kv: '(%s, %s)' % (nm(kv[0]), gQ(F(kv[1]))), sorted(vals.items()))
-    return '(CCase %s %s %s %s %s %s %s)' % (p, glist(lambda c: nm('ch:' + c), drop_list(case)), glist(nm, obs['names']),
-                                           gv(obs['values']),
-                                           g_out(obs['out']), gv(obs['values2']), g_out(obs['out2']))
+    return '(CCase %s %s %s %s %s %s %s %s)' % (p, glist(lambda c: nm('ch:' + c), drop_list(case)), glist(nm, obs['names']),
+                                              gv(obs['values']),
+                                              g_out(obs['out']), gv(obs['values2']), g_out(obs['out2']),
+                                              gbool(obs.get('same', True)))
 
 
 def nontrivial(case, obs):
@@ -914,6 +1329,12 @@ def histogram_keys(case, obs):
             keys.append('constraint_on:' + n['k'])
         if n['k'] == 'map' and n['inner']['k'] == 'map':
             keys.append('nested_map:' + ('with_cs' if n['inner']['cs'] else 'merged'))
+        if n['k'] == 'ari':
+            keys.append('ari:' + ('time_dependent' if n.get('td') else 'div' if n['op'] == '/' else 'plain'))
+        if n['k'] == 'map' and any(key in evars(e) for key, e in n['m'].items()):
+            keys.append('map:self_referential')
+        if n['k'] == 'for' and n['idx'] in (evars(n['a']) | evars(n['b']) | evars(n['st']) | cs_vars(n['cs'])):
+            keys.append('for:index_in_own_range_or_constraint')
         if n.get('tsw'):
             keys.append('to_single_waveform')
     d = drop_list(case)
@@ -927,22 +1348,64 @@ def histogram_keys(case, obs):
     return keys
 
 
-def _has_product(e):
-    return e[0] == '*' or (e[0] in '+-' and (_has_product(e[1]) or _has_product(e[2])))
+_GUARD = {}          # canonical hash of (case, obs) -> guard holds
+_PENDING = {}        # candidates seen by to_coq whose guard has not been evaluated yet: hash -> Gallina term
+
+
+def _candidate(obs):
+    return 'names' in obs and bool(set(obs['names']) - set(obs['values'])) and obs['out'] in ('program', 'none')
+
+
+def guard_holds(case, obs):
+    """guard_C03_function_zero (Spec.v) evaluated in Coq on the user-level tree for both assignments (check_guard);
+    all candidates seen so far are evaluated in one batch"""
+    key = vlib.canonical_hash([case, obs])
+    if key not in _GUARD:
+        _PENDING.setdefault(key, _to_coq(case, obs))
+        keys = sorted(_PENDING)
+        wd = os.path.join(vlib.CASES, 'C03.guard.%d' % os.getpid())
+        try:
+            res = vlib.run_coq_cases(wd, CORR_IMPORTS, ['check_guard'], [_PENDING[k] for k in keys], shard=SHARD)
+            for j, k in enumerate(keys):
+                _GUARD[k] = j not in res['check_guard']
+            _PENDING.clear()
+        finally:
+            vlib.rmtree(wd)
+    return _GUARD[key]
 
 
 def classify(case, obs):
-    """known finding: a FunctionPT whose expression contains a product, a declared name is not supplied, and the
-    implementation nevertheless returned (program / None)"""
+    """known finding: the implementation returned (program / None) although a declared name is not supplied, and the
+    input lies in the class the theorems exclude: the Coq guard guard_C03_function_zero is false (a reached function
+    atom whose expression cannot be evaluated but whose symbolic residual is closed)"""
     if 'names' not in obs:
         return None
     missing = set(obs['names']) - set(obs['values'])
     if not missing or obs['out'] not in ('program', 'none'):
         return None
-    for n in nodes(case['tree']):
-        if n['k'] == 'func' and any(_has_product(r) for r in n['reads']):
+    try:
+        if not guard_holds(case, obs):
             return 'function-zero-factor-hides-missing-parameter'
+    except Exception:
+        return None         # the guard could not be evaluated: not classified (reported as a violation)
     return None
+
+
+def exact_order_report(seed=0, tier='quick'):
+    """dev tool (not part of the verdict): on how many generated cases do model and implementation agree on the exact
+    outcome kind, also for incomplete assignments (check_corr_exact)"""
+    import random
+    rng = random.Random(seed)
+    cases = gen_cases(rng, tier, {})
+    obs = [run_impl(c) for c in cases]
+    wd = os.path.join(vlib.CASES, 'C03.exact.%d' % os.getpid())
+    try:
+        res = vlib.run_coq_cases(wd, CORR_IMPORTS, ['check_corr_exact'], [to_coq(c, o) for c, o in zip(cases, obs)],
+                                 shard=SHARD)
+    finally:
+        vlib.rmtree(wd)
+    incomplete = sum(1 for o in obs if 'names' in o and set(o['names']) - set(o['values']))
+    return {'cases': len(cases), 'incomplete': incomplete, 'disagree': [cases[i] for i in res['check_corr_exact']]}
 
 
 def tree_size(t):
